@@ -20,8 +20,10 @@ ANCHORS = [
 ]
 BUDGET = {"quick": 1200, "thorough": 15000}
 SHARD = 100
+SHARD_IMPORTS = "From Verif Require Import Dict.Common."
 RULE = ("histories of 1-40 operations (set, get, del, in, len, list, order_first/last/before/after incl. "
-        "self-reference in another case and missing keys, sort_fields, copy, dump, dump+reparse) over the keys "
+        "self-reference in another case and missing keys, sort_fields with key = default / len / constant / a rank "
+        "table / reverse-lexicographic (ties are frequent), copy, dump, dump+reparse) over the keys "
         "A a B b Cc cC D (a tenth of the histories: keys with non-ASCII cased letters, str.lower taken from the "
         "interpreter), addressed to any paragraph created so far (the start paragraph, its copies, copies of "
         "copies, re-parsed dumps), starting from Deb822(), Deb822(dict) or Deb822(text); single-line values plus a "
@@ -52,7 +54,9 @@ ASSUMPTIONS = [
     "identity (a theorem for plain field names and single-line values without surrounding blanks, Props/C09.v no. 5; "
     "checked per case otherwise); the full parser is C02's, the model's parser covers plain-text paragraphs without "
     "PGP armour",
-    "sort_fields() is called with its default key (str.lower)",
+    "sort_fields(key=...) is exercised with the closed family of key functions of coq/Dict/Common.v sortkey (default "
+    "None, len, constant, the rank table {'package': 0, 'b': 0, 'description': 2, 'd': 2} default 1 on the lower-cased "
+    "name, [-ord(c) for c in name.lower()]); key values are modelled as integer lists compared lexicographically",
 ]
 
 KEYS = ["A", "a", "B", "b", "Cc", "cC", "D"]
@@ -124,7 +128,19 @@ def _start(rng, keys):
 
 
 OPS = [("set", 24), ("get", 7), ("del", 10), ("in", 4), ("len", 2), ("iter", 3), ("first", 7), ("last", 7),
-       ("before", 10), ("after", 10), ("sort", 4), ("copy", 4), ("reparse", 4), ("dump", 2)]
+       ("before", 10), ("after", 10), ("sort", 7), ("copy", 4), ("reparse", 4), ("dump", 2)]
+
+# the closed family of key functions sort_fields(key=...) is driven with (coq/Dict/Common.v sortkey / sort_key)
+RANK = {"package": 0, "b": 0, "description": 2, "d": 2}
+SORT_KEYS = {
+    "default": None,
+    "len": len,
+    "const": lambda f: 0,
+    "rank": lambda f: RANK.get(f.lower(), 1),
+    "revlex": lambda f: [-ord(c) for c in f.lower()],
+}
+SORT_KEY_COQ = {"default": "KDefault", "len": "KLen", "const": "KConst", "rank": "KRank", "revlex": "KRevLex"}
+SORT_KEY_WEIGHTS = [("default", 30), ("len", 20), ("const", 15), ("rank", 20), ("revlex", 15)]
 
 
 def _gen_case(rng, maxlen=40):
@@ -160,6 +176,8 @@ def _gen_case(rng, maxlen=40):
             op["k"] = pick(d, 0.3)
         if kind == "set":
             op["v"] = _value(rng)
+        if kind == "sort":
+            op["key"] = rng.choices([n for n, _ in SORT_KEY_WEIGHTS], [w for _, w in SORT_KEY_WEIGHTS])[0]
         if kind in ("before", "after"):
             if rng.random() < 0.07:
                 op["r"] = op["k"].swapcase() if rng.random() < 0.6 else op["k"]
@@ -244,7 +262,11 @@ def _apply(Deb822, objs, op):
     elif kind == "after":
         d.order_after(op["k"], op["r"])
     elif kind == "sort":
-        d.sort_fields()
+        f = SORT_KEYS[op.get("key", "default")]
+        if f is None:
+            d.sort_fields()
+        else:
+            d.sort_fields(key=f)
     elif kind == "copy":
         c = d.copy()
         objs.append(c)
@@ -332,7 +354,9 @@ def _emit_op(op):
     one = {"get": "XGet", "del": "XDel", "in": "XIn", "first": "XFirst", "last": "XLast"}
     if k in one:
         return "%s %s %s" % (one[k], o, _s(op["k"]))
-    zero = {"len": "XLen", "iter": "XIter", "sort": "XSort", "copy": "XCopy", "reparse": "XReparse", "dump": "XDump"}
+    if k == "sort":
+        return "XSort %s %s" % (o, SORT_KEY_COQ[op.get("key", "default")])
+    zero = {"len": "XLen", "iter": "XIter", "copy": "XCopy", "reparse": "XReparse", "dump": "XDump"}
     return "%s %s" % (zero[k], o)
 
 
@@ -470,7 +494,8 @@ def extra_evidence(items):
     nobj = {}
     for case, obs in items:
         for op, f in zip(case["ops"], obs["frames"][1:]):
-            k = "%s:%s" % (op["op"], f["out"].get("err", "ok"))
+            name = op["op"] if op["op"] != "sort" else "sort[%s]" % op.get("key", "default")
+            k = "%s:%s" % (name, f["out"].get("err", "ok"))
             hist[k] = hist.get(k, 0) + 1
         n = len(obs["frames"][-1]["all"])
         nobj[str(n)] = nobj.get(str(n), 0) + 1
@@ -607,8 +632,9 @@ class _RefDict:
     def order_after(self, k, r):
         self._rel(k, r, 1)
 
-    def sort_fields(self):
-        self.l = sorted(self.l, key=lambda kv: kv[0].lower())
+    def sort_fields(self, key=None):
+        f = key if key is not None else (lambda name: name.lower())
+        self.l = sorted(self.l, key=lambda kv: f(kv[0]))       # list.sort / sorted are stable
 
     def copy(self):
         return _RefDict(self.l)
